@@ -6,7 +6,8 @@ REQUIRED_BRANCHES = ["commit", "rmsnap", "rmseg", "rmseg-fail", "ropen", "rclose
                      "open-existing", "final", "op:second",
                      "crashreopen:held", "open-over-torn-snapshot", "crash",
                      "skipmerge:in-memory-merge-skipped", "closeerr:closer-errors-during-close", "closeerr:reopened-at-once", "final-handles-balanced",
-                     "closetwice:first-close-parked-inside-close", "closeret"]
+                     "closetwice:first-close-parked-inside-close", "closeret",
+                     "closemidpersist:reader-with-file-segments", "readerheld", "readerclosed"]
 ASSUMPTIONS = [
     "flock/unlink semantics: an exclusive non-blocking flock fails while another open file description holds a shared lock (readers, the writer's own loaded segments); os.Remove removes the name",
     "Event.exact (C13) as in C02 (a committed snapshot file is complete)",
